@@ -81,15 +81,18 @@ def answer (s : St) (w : World) (res : String) : St × String :=
   let (hs, d) := renderWorld s.hashes w
   ({ s with w := w, hashes := hs }, res ++ " | " ++ d)
 
-def parseRights (toks : List String) (n : Nat) : Option (List Bool) :=
+/-- `rights=a,s,l grant=T`: `a` all rows from the start, `s` own rows only, `l` own rows, all rows from date `T` -/
+def parseRights (toks : List String) (n : Nat) : Option Rights :=
   match kv? toks "rights" with
-  | none => some (List.replicate n true)
+  | none => some (List.replicate n (some 0))
   | some v =>
     let parts := v.splitOn ","
+    let grant := nat? toks "grant"
     if parts.length ≠ n then none
-    else if parts.any (fun x => x ≠ "a" ∧ x ≠ "s") then none
+    else if parts.any (fun x => x ≠ "a" ∧ x ≠ "s" ∧ x ≠ "l") then none
     else if parts.head? ≠ some "a" then none
-    else some (parts.map (· = "a"))
+    else if parts.any (· = "l") ∧ grant.isNone then none
+    else some (parts.map fun x => if x = "a" then some 0 else if x = "l" then grant else none)
 
 def writeOp (s : St) (p : Nat) (op : WOp) : St × String :=
   if p ≥ s.w.peers.length then (s, "bad-op")
@@ -108,7 +111,7 @@ def stepLine (s : St) (line : String) : St × String :=
     | some i, some n =>
       if n < 1 ∨ n > 4 then (s, "bad-op")
       else match parseRights rest n with
-        | some rights => ({ s with w := World.init rights, inCase := true, hashes := [] }, s!"case {i}")
+        | some rights => ({ s with w := World.initDated rights, inCase := true, hashes := [] }, s!"case {i}")
         | none => (s, "bad-op")
     | _, _ => (s, "bad-op")
   | kind :: rest =>
